@@ -81,7 +81,9 @@ func Files(genpkg string, service *expr.ServiceExpr, userTypePkgs map[string][]s
 		}
 		if _, ok := seenErrs[et.Name]; !ok {
 			seenErrs[et.Name] = struct{}{}
-			if _, ok := seen[et.Name]; !ok {
+			_, seenName := seen[et.Name]
+			_, seenVar := seen[et.VarName]
+			if !seenName && !seenVar {
 				addTypeDefSection(pathWithDefault(et.Loc, svcPath), et.Name, &codegen.SectionTemplate{
 					Name:   "error-user-type",
 					Source: readTemplate("user_type"),
